@@ -167,5 +167,6 @@ pub fn property() -> Property {
         assumptions: vec!["the hook tokenize_with_ranges iterates the real Tokenizer with skip_bytes=0 and reports TokenizationError::string_range"],
         families,
         prelude: None,
+        epilogue: None,
     }
 }
